@@ -36,9 +36,12 @@ type RuleCase struct {
 	ViaUpdate bool `json:"reached_via_update,omitempty"`
 	// SecondRoute: every rule has a further route on a path of its own that is never requested, with a path_params
 	// condition that never holds; the rule's first route must be unaffected by it
-	SecondRoute bool   `json:"rules_have_a_second_route,omitempty"`
-	Method      string `json:"method"`
-	Path        string `json:"request_path"`
+	SecondRoute bool `json:"rules_have_a_second_route,omitempty"`
+	// DeadFirstRoute: every rule whose expression names a wildcard has, in front of its route, a route with the same
+	// expression and a path_params condition that never holds; the rule still matches through its own route
+	DeadFirstRoute bool   `json:"rules_have_a_first_route_that_never_holds,omitempty"`
+	Method         string `json:"method"`
+	Path           string `json:"request_path"`
 }
 
 var rlExprs = []string{"/a/b", "/a/:p1", "/a/**", "/:p0/b", "/**", "/a/:p1/", "/a/*r"}
@@ -74,6 +77,17 @@ func mkFactory(hasDefault bool) (rule.Factory, error) {
 	return rules.NewRuleFactory(mf, conf, config.DecisionMode, zerolog.Nop())
 }
 
+// namedWildcard returns the name of the first named wildcard of an expression.
+func namedWildcard(expr string) string {
+	for _, seg := range strings.Split(expr, "/") {
+		if len(seg) > 1 && (seg[0] == ':' || seg[0] == '*') && seg[1] != '*' {
+			return seg[1:]
+		}
+	}
+
+	return ""
+}
+
 func execRuleCase(rc *RuleCase) (got string, want string, matching int, err error) {
 	rf, err := mkFactory(rc.HasDefault)
 	if err != nil {
@@ -106,6 +120,13 @@ func execRuleCase(rc *RuleCase) (got string, want string, matching int, err erro
 
 			if rc.HasDefault {
 				cfg.Matcher.BacktrackingEnabled = &flag
+			}
+
+			if name := namedWildcard(r.Expr); rc.DeadFirstRoute && name != "" {
+				cfg.Matcher.Routes = append([]rulecfg.Route{{
+					Path:       r.Expr,
+					PathParams: []rulecfg.ParameterMatcher{{Name: name, Type: "exact", Value: "never-requested"}},
+				}}, cfg.Matcher.Routes...)
 			}
 
 			if rc.SecondRoute {
@@ -251,10 +272,22 @@ func runRuleLevel(c *engine.Ctx, work *int) {
 				}
 
 				for _, p := range rlProbes {
-					for _, mu := range []string{"GET", "POST", "GET+", "POST+", "GET2", "POST2"} {
-						m, upd, two := strings.TrimRight(mu, "+2"), strings.HasSuffix(mu, "+"), strings.HasSuffix(mu, "2")
+					for _, mu := range []string{"GET", "POST", "GET+", "POST+", "GET2", "POST2", "GET0", "POST0"} {
+						m, upd, two := strings.TrimRight(mu, "+20"), strings.HasSuffix(mu, "+"), strings.HasSuffix(mu, "2")
+						dead := strings.HasSuffix(mu, "0")
 						rc := &RuleCase{Kind: "rule-level", Rules: rs, SecondFst: second, HasDefault: def, Method: m, Path: p, ViaUpdate: upd,
-							SecondRoute: two}
+							SecondRoute: two, DeadFirstRoute: dead}
+
+						if dead {
+							any := false
+							for _, r := range rs {
+								any = any || namedWildcard(r.Expr) != ""
+							}
+
+							if !any {
+								continue
+							}
+						}
 
 						got, want, nm, err := execRuleCase(rc)
 
@@ -286,6 +319,10 @@ func runRuleLevel(c *engine.Ctx, work *int) {
 
 							if two {
 								sig += "/rules-with-a-second-route"
+							}
+
+							if dead {
+								sig += "/rules-with-a-first-route-that-never-holds"
 							}
 
 							c.Violation(sig,
@@ -368,6 +405,10 @@ func replayRuleLevel(c *engine.Ctx, raw json.RawMessage) {
 
 		if rc.SecondRoute {
 			sig += "/rules-with-a-second-route"
+		}
+
+		if rc.DeadFirstRoute {
+			sig += "/rules-with-a-first-route-that-never-holds"
 		}
 
 		c.Violation(sig, "repository and reference disagree", &rc)
